@@ -382,7 +382,7 @@ func (e *orderEnv) bornLike(p *provInst, s Step, epDirty bool) string {
 				continue
 			}
 		case k == "keys":
-			if epDirty || len(s.EP) > 0 || s.Bulk {
+			if epDirty || len(s.EP) > 0 || s.Bulk || p.sign != p0.sign { // the key set is what the provider's own storage publishes
 				continue
 			}
 		case strings.HasPrefix(k, "token:") || strings.HasPrefix(k, "authorize:") || strings.HasPrefix(k, "userinfo:"):
